@@ -187,6 +187,58 @@ def long_tail_cases():
     return out
 
 
+# ---- past the look-ahead cap of the ranking (rank_cnds; /repo 00915cc) ---------------------------------------------
+def rankcap_grammar(ki, kd):
+    """S: 'a' R;  R: 'e' Bs 'c' <tail after the insertion> | 'c' <tail after the deletions>;  Bs: | Bs 'b';
+    a tail is `'d'^k 'x'` (parsing stops k lexemes after the 'c') or, for k = None, `Ds` with Ds: | Ds 'd' | Ds 'y'
+    (everything is accepted).  On `a b^n c d.. ` the error is at the first 'b'; with cost(b) = 1 and every other token
+    costing n, [Insert e] and [Delete b x n] cost the same.  The auditor's grammar is (None, 3)."""
+    def tail(k):
+        return [r("Ds")] if k is None else [t("d")] * k + [t("x")]
+    rules = [("S", [[t("a"), r("R")]]),
+             ("R", [[t("e"), r("Bs"), t("c")] + tail(ki), [t("c")] + tail(kd)]),
+             ("Bs", [[], [r("Bs"), t("b")]])]
+    if ki is None or kd is None:
+        rules.append(("Ds", [[], [r("Ds"), t("d")], [r("Ds"), t("y")]]))
+    return Gram(["a", "b", "c", "d", "e", "x", "y"], rules)
+
+
+def rankcap_case(n, ki, kd, m, last=None):
+    g = rankcap_grammar(ki, kd)
+    if last is None:
+        last = "y" if (ki is None or kd is None) else "d"      # 'y' is a token of the grammar only with Ds
+    costs = {x: n for x in g.tokens}
+    costs["b"] = 1
+    return ("rankcap_del%d" % n, g, "b1_others%d" % n, costs, [["a"] + ["b"] * n + ["c"] + ["d"] * m + [last]])
+
+
+def rankcap_unit(groups):
+    """the auditor's unit-cost demonstration: deleting the `groups` x's ends at in_laidx + 3*groups - 1, inserting as many k's
+    costs the same and accepts the input just the same"""
+    g = Gram(["p", "q", "x", "z", "k"],
+             [("S", [[t("p"), t("q"), r("Rest")]]),
+              ("Rest", [[r("Ps"), t("z")], [t("k")] * groups + [t("x"), r("Ts"), t("z")]]),
+              ("Ps", [[], [r("Ps"), t("p"), t("q")]]),
+              ("Ts", [[], [r("Ts"), t("p"), t("q"), t("x")]])])
+    return ("rankcap_unit%d" % groups, g, "unit", {}, [["p", "q", "x"] * groups + ["z"]])
+
+
+def rankcap_cases(rng, n_generated, thorough=False):
+    """One candidate deletes >= TRY_PARSE_AT_MOST - 3 lexemes (its three trailing shifts then end AT or BEYOND in_laidx + 250),
+    another inserts one token; both directions: the inserting candidate truly parses further (auditor: tails (None, 3)), the
+    deleting one truly parses further ((k, None)), both to the end, and the controls on either side of the threshold (the
+    deleting candidate ends below the cap: n <= 246; the inserting one fails before the cap: ki = 0 with n = 248)."""
+    out = [rankcap_case(255, None, 3, 3), rankcap_case(240, None, 3, 3),        # the auditor's two runs
+           rankcap_case(248, 6, None, 9, "d"), rankcap_case(248, 0, None, 5), rankcap_case(247, None, 3, 5),
+           rankcap_case(250, None, None, 4)]
+    grid = [(n, ki, kd, m) for n in range(243, 256) for ki in (None, 0, 1, 3, 7) for kd in (None, 2, 3, 6) for m in (4, 8)]
+    if thorough:
+        out += [rankcap_case(*x) for x in grid]
+    else:
+        out += [rankcap_case(*x) for x in rng.sample(grid, n_generated)]
+    return out
+
+
 def gen_cases(ctx, n_cases, n_inputs):
     """-> list of (family, Gram, costname, costs dict, inputs)"""
     rng = ctx.rng
